@@ -600,6 +600,90 @@ func bodyPersistWindow(conf map[string]interface{}) func(c *drv.Ctx) {
 	}
 }
 
+// ---- a merge that leaves a segment out: with the partial merge plan a segment that keeps two or
+// more live documents is not eligible, the small segments around it are merged; the segment left
+// out carries a deletion. Global document numbers (offset + local number) of the new root must
+// still be those of whole batches; nothing is written between the merge and the reads.
+
+var partialWorkload = []lww.Batch{
+	{{Kind: "I", ID: "a", V: 1}, {Kind: "I", ID: "b", V: 1}, {Kind: "I", ID: "c", V: 1}, {Kind: "S", ID: "seq", V: 1}},
+	{{Kind: "I", ID: "a", V: 2}, {Kind: "S", ID: "seq", V: 2}},
+	{{Kind: "I", ID: "d", V: 1}, {Kind: "S", ID: "seq", V: 3}},
+	{{Kind: "I", ID: "b", V: 2}, {Kind: "I", ID: "e", V: 1}, {Kind: "S", ID: "seq", V: 4}},
+	{{Kind: "I", ID: "f", V: 1}, {Kind: "S", ID: "seq", V: 5}},
+}
+var partialIDs = []string{"a", "b", "c", "d", "e", "f", "zz"}
+
+func partialModel(q int) *lww.Model {
+	m := lww.New()
+	for j := 0; j < q; j++ {
+		m.Apply(partialWorkload[j])
+	}
+	return m
+}
+
+func bodyPartialMerge(c *drv.Ctx) {
+	var idx bleve.Index
+	vrt.Free(func() {
+		var err error
+		idx, err = bleve.NewUsing(c.Dir+"/idx", bleve.NewIndexMapping(), scorch.Name, scorch.Name,
+			map[string]interface{}{"scorchMergePlanOptions": bx.CopyConfig(bx.PartialMergePlan)})
+		if err != nil {
+			panic(err)
+		}
+	})
+	adv, _ := idx.Advanced()
+	submitted, returned := 0, 0
+	view := func(what string) {
+		atLeast := returned
+		r, err := adv.Reader()
+		if err != nil {
+			c.Fail("error:reader", "Reader: %v", err)
+			return
+		}
+		defer r.Close()
+		v, _ := r.GetInternal([]byte("seq"))
+		q := 0
+		if v != nil {
+			q, _ = strconv.Atoi(string(v))
+		}
+		if q > submitted || q < atLeast {
+			c.Fail("stale-read:reader", "%s: reader shows batch %d, expected between %d (returned) and %d (submitted)", what, q, atLeast, submitted)
+		} else if bad := partialModel(q).CheckReader(r, partialIDs, []string{"seq"}); len(bad) > 0 {
+			c.Fail("torn-view:reader", "%s: one reader shows batch %d (internal key) but: %s", what, q, strings.Join(bad, "; "))
+		}
+		c.Observe(fmt.Sprintf("%s=%d", what, q))
+	}
+	var wg vrt.WaitGroup
+	wg.Add(1)
+	stop := false
+	vrt.Go(func() {
+		defer wg.Done()
+		for i := 0; i < 4 && !stop; i++ {
+			view(fmt.Sprintf("concurrent-%d", i))
+		}
+	})
+	for j := 1; j <= len(partialWorkload); j++ {
+		submitted = j
+		if err := lww.ExecBatch(idx, partialWorkload[j-1]); err != nil {
+			c.Fail("error:batch", "Batch %d: %v", j, err)
+		}
+		returned = j
+		if j >= 3 {
+			vrt.WaitIdle() // merges of the small segments have been introduced; nothing written since
+			view(fmt.Sprintf("settled-after-%d", j))
+		}
+	}
+	stop = true
+	wg.Wait()
+	c.Observe("layout=" + bx.ScorchLayout(idx))
+	vrt.Free(func() {
+		if err := idx.Close(); err != nil {
+			c.Fail("error:close", "Close: %v", err)
+		}
+	})
+}
+
 // ---- several flush groups: five unsafe batches pile up behind the parked persister as separate
 // in-memory segments, the last one obsoleting one document in the first and one in the third
 // segment (every segment keeps live documents); with two persister workers one round cuts them into
@@ -893,6 +977,8 @@ func Scenarios() []drv.Scenario {
 			Body: bodyPersistWindow(unsafe2), Quick: d1r, Thorough: []drv.Phase{{Bound: 1}, {Bound: 2, Filter: "restricted"}}},
 		{Name: "S9-delete-only-batch-lands-in-persist-window-legacy-flush", Doc: "the same with one persister worker (legacy one-shot in-memory merge + flush)",
 			Body: bodyPersistWindow(map[string]interface{}{"unsafe_batch": true}), Quick: d1r, Thorough: []drv.Phase{{Bound: 1}, {Bound: 2, Filter: "restricted"}}},
+		{Name: "S12-merge-leaves-out-a-segment-with-deletions", Doc: "partial merge plan: the small segments are merged around a three-document segment that stays and carries a deletion; reads right after the merge settled, a reader thread alongside",
+			Body: bodyPartialMerge, Quick: d1r, Thorough: []drv.Phase{{Bound: 1}, {Bound: 2, Filter: "restricted"}}},
 		{Name: "S11-five-unpersisted-segments-flushed-in-three-groups-by-two-workers", Doc: "five unsafe batches pile up behind a parked persister (segments keep live documents, two carry deletions); one round with two workers merges three flush groups in memory while a reader thread and a sixth batch run",
 			Body: bodyManyFlushGroups(unsafe2), Quick: d1r, Thorough: []drv.Phase{{Bound: 1}, {Bound: 2, Filter: "restricted"}}},
 		{Name: "S5-upsidedown-gtreap", Class: "upsidedown", Doc: "2 writers × 2 batches ∥ reader + searcher on upsidedown/gtreap",
